@@ -23,6 +23,13 @@ def fa(x=0, y=0):
   return ('{pk}.alpha.fa', x, y)
 def shared(v=0):
   return ('{pk}.alpha.shared', v)
+import functools
+def traced(fn):
+  @functools.wraps(fn)
+  def wrapper(*args, **kwargs):
+    return ('traced',) + tuple(fn(*args, **kwargs))
+  return wrapper
+fa_traced = traced(fa)          # a decorated variant exported next to the base function: a different object
 class K:
   """alpha.K"""
   def __init__(self, a=0, b=0):
